@@ -19,6 +19,7 @@ const (
 	ModeHonest = "honest"
 	ModeForge  = "forge-owner-pubkey" // stranger puts the OWNER's public key on the wire, signs with its own key
 	ModeClaim  = "claim-proposer"     // certificateResults only: QC.ProposerKey replaced by the signer's key after the committee signed
+	ModeWire   = "wire-special-field" // the fields canopy fills in itself (Signer, OrderId, ProposalHash) are set on the wire BEFORE signing: Signer := another account, OrderId := another seller's order
 	FeeDefault = uint64(10000)
 	BaseTime   = uint64(1_750_000_000_000_000)
 )
@@ -307,6 +308,30 @@ func Build(l *Lab, id CaseID, seq uint64) *Built {
 	if id.Mode == ModeClaim {
 		// the signer re-labels itself as the certificate's proposer (committee signature untouched)
 		pl.QC.ProposerKey = signer.Pub
+	}
+	if id.Mode == ModeWire {
+		victim, foreignOrder := l.W.P[base][PA].Addr, l.W.OrderID(base, "other")
+		switch m := pl.Msg.(type) {
+		case *fsm.MessageStake:
+			m.Signer = victim
+		case *fsm.MessageEditStake:
+			m.Signer = victim
+		case *fsm.MessageCreateOrder:
+			m.OrderId = foreignOrder
+		case *fsm.MessageDexLimitOrder:
+			m.OrderId = foreignOrder
+		case *fsm.MessageDexLiquidityDeposit:
+			m.OrderId = foreignOrder
+		case *fsm.MessageDexLiquidityWithdraw:
+			m.OrderId = foreignOrder
+		case *fsm.MessageChangeParameter:
+			m.ProposalHash = "00ff"
+		case *fsm.MessageDAOTransfer:
+			m.ProposalHash = "00ff"
+		default:
+			b.NA = "message has no field that canopy fills in"
+			return b
+		}
 	}
 	switch {
 	case isRLP:
